@@ -6,6 +6,7 @@ members, nested tuples of terms) is stored as a Python expression string produce
 their registered zoo name so that a replay sees an object of the same kind.
 """
 import collections
+import types
 import datetime as _dt
 import decimal
 import fractions
@@ -116,6 +117,12 @@ def src(v):
         return "Counter(" + src(dict(v)) + ")"
     if t is collections.OrderedDict:
         return "OrderedDict(" + src(dict(v)) + ")"
+    if t is types.MappingProxyType:
+        return "MappingProxyType(" + src(dict(v)) + ")"
+    if t is collections.ChainMap:
+        return "ChainMap(" + ", ".join(src(m) for m in v.maps) + ")"
+    if t.__name__ == "optional" and t.__module__.startswith("d42."):
+        return "optional(" + src(v.key) + ")"
     return f"UNREPR({type(v).__name__!r}, {repr(v)[:80]!r})"
 
 
@@ -127,10 +134,16 @@ class _Unrepr:
         return f"<unreproducible {self.tname} {self.text}>"
 
 
+def _optional():
+    from d42 import optional
+    return optional
+
+
 def namespace():
     return {
         "Z": NAMED, "Nil": Nil, "UUID": uuid.UUID, "datetime": _dt, "Decimal": decimal.Decimal, "Fraction": fractions.Fraction,
-        "OrderedDict": collections.OrderedDict, "defaultdict": collections.defaultdict, "Counter": collections.Counter, "UNREPR": _Unrepr,
+        "OrderedDict": collections.OrderedDict, "MappingProxyType": types.MappingProxyType,
+        "ChainMap": collections.ChainMap, "optional": _optional(), "defaultdict": collections.defaultdict, "Counter": collections.Counter, "UNREPR": _Unrepr,
         "StrSub": StrSub, "IntSub": IntSub, "FloatSub": FloatSub, "ListSub": ListSub, "DictSub": DictSub,
         "__builtins__": {
             "float": float, "complex": complex, "set": set, "frozenset": frozenset,
